@@ -687,6 +687,8 @@ func c18Gen_(g *G) {
 				}
 				if b := c.searchB(srv, z, 400000); b != nil {
 					c.honest(t, gr, g.R.Bytes(256), b, true, fmt.Sprintf("lead0:B%d", z))
+					// the same honest B sent without its leading zero bytes (255 / 254 bytes: in the accepted range)
+					c.emitSrp(t, gr, g.R.Bytes(256), srv.B(b).Bytes(), true, srv.v, b, fmt.Sprintf("lead0:B%d-unpadded", z), "honest")
 					// both A and B with leading zeros
 					if a := c.searchA(gr, z, 400000); a != nil {
 						c.honest(t, gr, a, b, true, fmt.Sprintf("lead0:A%dB%d", z, z))
